@@ -3,6 +3,7 @@ package vkit
 import (
 	"context"
 	"runtime"
+	"strings"
 	"sync"
 	"sync/atomic"
 	"time"
@@ -42,6 +43,13 @@ type Runner struct {
 	Blocking func(Step) bool
 	Exec     func(client int, s Step, ctx context.Context) Result
 	Idle     time.Duration // how long "all blocked, no progress" must last before the release (default 3ms)
+	// OnHang is called (on the caller's goroutine) when the program has
+	// made no progress for the quiescence limit although every context
+	// has been cancelled: non-blocking calls never block and blocking
+	// calls return once their context is done, so the program is stuck
+	// inside the library (a deadlock or a livelock).  stacks holds the
+	// goroutines with a library frame.  Without OnHang Run keeps waiting.
+	OnHang func(stacks string)
 }
 
 // Run executes the program once and returns the history.  released reports
@@ -118,11 +126,39 @@ func (r *Runner) Run(p Program) (h *Hist, released bool) {
 		idle = 3 * time.Millisecond
 	}
 	last, since := int64(-1), time.Now()
+	hangLast, hangSince, forced := int64(-1), time.Now(), false
 	for {
 		select {
 		case <-done:
 			return h, released
 		default:
+		}
+		if cur := progress.Load(); cur != hangLast {
+			hangLast, hangSince = cur, time.Now()
+		} else if r.OnHang != nil && time.Since(hangSince) > Limit() {
+			if !forced {
+				// no call has returned for the whole limit: cancel
+				// every context (always sound) and give the program the
+				// same time again
+				forced, released, hangSince = true, true, time.Now()
+				for i := range cancels {
+					cancel(i)
+				}
+			} else {
+				var b strings.Builder
+				for _, g := range Goroutines() {
+					if strings.Contains(g, "github.com/tychoish/fun") {
+						b.WriteString(g)
+						b.WriteString("\n\n")
+					}
+				}
+				st := b.String()
+				if len(st) > 8000 {
+					st = st[:8000]
+				}
+				r.OnHang(st)
+				return h, released
+			}
 		}
 		allBlocked := true
 		for g := 0; g < n; g++ {
